@@ -50,6 +50,7 @@ fn main() {
         "pathguard" => fsops::engine_pathguard(&rt, cases, &mut out),
         "ckpt" => fsops::engine_ckpt(&rt, cases, &mut out),
         "surface" => surface::engine_surface(cases, &mut out),
+        "surface_frames" => surface::engine_surface_frames(cases, &mut out),
         "tasklife" => tasklife::engine_tasklife(&rt, cases, &mut out),
         "shellcap" => tasklife::engine_shellcap(&rt, cases, &mut out),
         "secrets" => secrets::engine_secrets(&rt, cases, &mut out),
